@@ -657,6 +657,7 @@ Fixpoint ids_ok (t : st) : Prop :=
   | SLit (LStr t _) => lexable (TString t)
   | SLit (LBytes t _) => lexable (TBytes t)
   | SLit _ => True
+  | SNegLit _ => True
   | SSel a f => ids_ok a /\ ident_okb f = true
   | SIdx a i => ids_ok a /\ ids_ok i
   | SMCall a f args => ident_okb f = true /\ ids_ok a /\ all args
@@ -719,6 +720,8 @@ Proof.
   induction t using st_ind'; cbn [wf_st ids_ok]; intros W I.
   - constructor; [now apply simple_lexable|constructor].
   - cbn [raw]. apply lexable_one. now apply simple_lit.
+  - cbn [raw]. apply andb_prop in W as [W0 _]. apply simple_cons; [reflexivity|]. apply simple_one. cbn [simple_tok].
+    destruct (nat_digits_ok (- z) ltac:(lia)) as (_ & H2 & H3). rewrite H2. now destruct (nat_digits (- z)).
   - destruct I as [Ia If]. cbn [raw]. fold (tk_at 7 t). apply simple_app; [apply simple_tk_at; auto|].
     apply simple_cons; [reflexivity|]. now apply simple_one.
   - destruct W as [Wa Wi]. destruct I as [Ia Ii]. cbn [raw]. fold (tk_at 7 t1).
